@@ -41,7 +41,7 @@ def verify():
             d, r, _ = prog.callee_of(t)
             if is_raw_fs_call(r or d or "", d or ""):
                 raw.append(fn.name)
-    if raw != ["raw_fs"]:
+    if sorted(raw) != ["raw_fs", "split_helper"]:
         raise ControlFailure("raw filesystem call predicate matched %s" % raw)
     res["raw_fs"] = raw
     sites = audit(None, prog, list(prog.by_norm.values()), ())
@@ -86,5 +86,29 @@ def verify():
     if not sized or sized[1] <= 65537:
         raise ControlFailure("allocation range control: %s" % (sized,))
     res["alloc_range"] = sized
+    # normalisation: a new private helper is spliced into its caller (sa/inline.py), the flag
+    # computed in the caller still guards the helper's body, and the mod summary of the caller
+    # is what it was for the unsplit function
+    from inline import inline_new_helpers
+    from core import strip_generics
+    from df import Flow, Mods
+
+    known = {strip_generics(b["path"]) for b in f["controls"]["bodies"] if b["name"] != "split_helper"}
+    f2, rep = inline_new_helpers(f, known)
+    prog2 = Program(f2)
+    names = [x.name for x in prog2.by_norm.values()]
+    if "split_helper" in names or not rep or rep[0]["helper"].split("::")[-1] != "split_helper":
+        raise ControlFailure("inliner did not splice split_helper: %s" % rep)
+    sc = [x for x in prog2.by_norm.values() if x.name == "split_caller"][0]
+    rm = [(b, t) for b, t in sc.all_calls() if is_raw_fs_call(prog2.callee_of(t)[1] or prog2.callee_of(t)[0] or "", prog2.callee_of(t)[0] or "")]
+    if len(rm) != 1:
+        raise ControlFailure("inliner: the helper's filesystem call is not visible in split_caller")
+    fl = Flow(prog2, Mods(prog2), sc, lambda k: k[0] == "val" and k[1] == "self.armed")
+    ws = [dict(w) for w in fl.at_term(rm[0][0])]
+    if not ws or not all(w.get(("val", "go")) == (True, frozenset([1])) and w.get(("val", "self.armed")) == (True, frozenset([1])) for w in ws):
+        raise ControlFailure("inliner/flow: the spliced call is not under go == true and self.armed == true: %s" % ws)
+    if sorted(Mods(prog2).of(sc.norm) or []) != ["hits"]:
+        raise ControlFailure("inliner/mods: split_caller should write only `hits`: %s" % sorted(Mods(prog2).of(sc.norm) or []))
+    res["inliner"] = {"spliced": rep[0]["helper"], "guards_at_spliced_call": ["go==true", "self.armed==true"], "mods": ["hits"]}
     _DONE.update(res)
     return _DONE
